@@ -26,6 +26,8 @@ type evalEnv struct {
 	inOld  bool
 	spec   map[string]Value // spec-function parameters (pure evaluation)
 	preNames map[string]Value
+	letCache map[string]Value
+	qdepth   int
 	depth  int
 }
 
@@ -245,25 +247,13 @@ func (fr *Frame) evalIdent(name string, env *evalEnv) (Value, error) {
 	}
 	if env.lets != nil {
 		if le, ok := env.lets[name]; ok {
-			if env.depth > 40 {
-				return nil, fmt.Errorf("let recursion at %s", name)
-			}
-			env.depth++
-			v, err := fr.evalExpr(le, env)
-			env.depth--
-			return v, err
+			return fr.evalLet(name, le, env)
 		}
 	}
 	if env.spec == nil && !env.callee {
 		if fr.lets != nil {
 			if le, ok := fr.lets[name]; ok {
-				env.depth++
-				if env.depth > 40 {
-					return nil, fmt.Errorf("let recursion at %s", name)
-				}
-				v, err := fr.evalExpr(le, env)
-				env.depth--
-				return v, err
+				return fr.evalLet(name, le, env)
 			}
 		}
 		// parameters
@@ -364,6 +354,39 @@ func (fr *Frame) evalIdent(name string, env *evalEnv) (Value, error) {
 	return nil, fmt.Errorf("unknown identifier %q", name)
 }
 
+// evalLet evaluates an abbreviation once per evaluation context and names the result,
+// so that repeated uses share one SMT definition.
+func (fr *Frame) evalLet(name string, le Expr, env *evalEnv) (Value, error) {
+	if env.depth > 40 {
+		return nil, fmt.Errorf("let recursion at %s", name)
+	}
+	key := name
+	if env.inOld {
+		key += "|old"
+	}
+	if env.qdepth == 0 && env.letCache != nil {
+		if v, ok := env.letCache[key]; ok {
+			return v, nil
+		}
+	}
+	env.depth++
+	v, err := fr.evalExpr(le, env)
+	env.depth--
+	if err != nil {
+		return nil, err
+	}
+	if env.qdepth == 0 {
+		if _, isU := v.(*UInt); !isU {
+			v = fr.nameValue("let."+name, v)
+		}
+		if env.letCache == nil {
+			env.letCache = map[string]Value{}
+		}
+		env.letCache[key] = v
+	}
+	return v, nil
+}
+
 func (fr *Frame) selectField(v Value, name string, env *evalEnv) (Value, error) {
 	r := fr.run
 	switch x := v.(type) {
@@ -394,7 +417,7 @@ func (fr *Frame) selectField(v Value, name string, env *evalEnv) (Value, error) 
 				continue
 			}
 			if isStruct(f.Type()) {
-				return &Sc{T: r.fldRef(namedKey(st), f.Name(), x.T), K: kRef, W: 32, Ty: types.NewPointer(f.Type())}, nil
+				return &Sc{T: r.fldRefT(st, f, x.T), K: kRef, W: 32, Ty: types.NewPointer(f.Type())}, nil
 			}
 			ls, err := leavesOf(f.Type())
 			if err != nil {
@@ -835,7 +858,9 @@ func (fr *Frame) evalCall(x *ECall, env *evalEnv) (Value, error) {
 			savedSpec, hadSpec = env.spec[id.Name]
 			env.spec[id.Name] = intV(bvn)
 		}
+		env.qdepth++
 		body, err := fr.evalBoolEnv(x.Args[3], env)
+		env.qdepth--
 		if had {
 			env.names[id.Name] = saved
 		} else {
@@ -1267,7 +1292,7 @@ func (fr *Frame) applyModifies(m Expr, env *evalEnv, post *postState) error {
 				continue
 			}
 			if isStruct(f.Type()) {
-				sub := &Sc{T: r.fldRef(namedKey(st), f.Name(), s.T), K: kRef, W: 32, Ty: types.NewPointer(f.Type())}
+				sub := &Sc{T: r.fldRefT(st, f, s.T), K: kRef, W: 32, Ty: types.NewPointer(f.Type())}
 				if err := fr.modAllFields(sub, post); err != nil {
 					return err
 				}
@@ -1375,7 +1400,7 @@ func (fr *Frame) modAllFields(s *Sc, post *postState) error {
 	for i := 0; i < u.NumFields(); i++ {
 		f := u.Field(i)
 		if isStruct(f.Type()) {
-			sub := &Sc{T: r.fldRef(namedKey(st), f.Name(), s.T), K: kRef, W: 32, Ty: types.NewPointer(f.Type())}
+			sub := &Sc{T: r.fldRefT(st, f, s.T), K: kRef, W: 32, Ty: types.NewPointer(f.Type())}
 			if err := fr.modAllFields(sub, post); err != nil {
 				return err
 			}
